@@ -245,7 +245,9 @@ func (d *badgerNodeDB) cleanMultipartLocked(removeNodes bool) error {
 
 	var logged bool
 	for it.Rewind(); it.Valid(); it.Next() {
-		key := it.Item().Key()
+		// The key is handed to the write batch, which keeps it until it is flushed, while the
+		// iterator reuses the item's buffers.
+		key := it.Item().KeyCopy(nil)
 		if removeNodes {
 			if !logged {
 				d.logger.Info("removing some nodes from a multipart restore")
